@@ -1,6 +1,7 @@
 package main
 
 import (
+	"runtime"
 	"encoding/json"
 	"flag"
 	"fmt"
@@ -223,6 +224,9 @@ func cmdCheck(args []string) int {
 		}(r)
 	}
 	wg.Wait()
+	if !*pin {
+		retryUndecided(*prop, runs, cfg)
+	}
 	for _, r := range runs {
 		if r.enc != nil && len(r.skipped) > 0 {
 			r.enc.obls = append(r.enc.obls, r.skipped...)
@@ -473,6 +477,32 @@ func report(p *Program, prop, tier string, seed int, runs []*funcRun, pin, verbo
 			fails = append(fails, failure{n, "solver result: " + o.Result, o})
 		}
 	}
+	// unpinned, attempted obligations by function and kind: the possible successors of a pinned
+	// group whose name no longer occurs
+	successors := map[string][]*Obl{}
+	fnGenerated := map[string]bool{}
+	for _, n := range names {
+		o := byName[n]
+		fnGenerated[o.Func] = true
+		if pinnedGroups[oblGroup(n)] || baselineUndecided[n] {
+			continue
+		}
+		k := o.Func + "/" + oblClass(n)
+		successors[k] = append(successors[k], o)
+	}
+	staleLoops := map[string]map[int]bool{}
+	for _, r := range runs {
+		if r.enc != nil && len(r.enc.StaleLoops) > 0 {
+			m := map[int]bool{}
+			for _, ord := range r.enc.StaleLoops {
+				m[ord] = true
+			}
+			staleLoops[r.key] = m
+		}
+	}
+	staleNoted := map[string]bool{}
+	succFailed := map[string]bool{}
+	var renamed []string
 	for _, g := range sortedKeys(pinnedGroups) {
 		if groupMembers[g] > 0 {
 			continue
@@ -488,6 +518,43 @@ func report(p *Program, prop, tier string, seed int, runs []*funcRun, pin, verbo
 				detached[fn] = true
 				undecidedNew = append(undecidedNew, fn+": loop invariants no longer attach ("+why+"); only the obligations that need no loop invariant are decided for this function")
 			}
+			continue
+		}
+		// The group's name carries source text (the indexed expression of a bounds obligation, the
+		// call text of a monitor emit) or a loop ordinal. When the text was rewritten (a renamed
+		// local, a hoisted sub-expression) the same obligation reappears under a new, unpinned
+		// name of the same function and kind: those successors decide the group.
+		cls := oblClass(g)
+		if cls == "inv.init" || cls == "inv.step" || cls == "decreases" {
+			if ord := loopOrdinalOf(g); ord > 0 && staleLoops[fn][ord] {
+				// the loop itself is gone (moved into a helper, unrolled): its invariant was a proof
+				// auxiliary; the function's other obligations are decided without it
+				if !staleNoted[fn] {
+					staleNoted[fn] = true
+					undecidedNew = append(undecidedNew, fmt.Sprintf("%s: the contract's invariants for loop(s) %v name loops the function no longer has; its remaining obligations are decided without them", fn, sortedInts(staleLoops[fn])))
+				}
+				continue
+			}
+		}
+		if succ := successors[fn+"/"+cls]; len(succ) > 0 {
+			bad := 0
+			for _, o := range succ {
+				if o.Result != "unsat" {
+					bad++
+					if !succFailed[o.Name] {
+						succFailed[o.Name] = true
+						claimed++
+						fails = append(fails, failure{o.Name, "solver result: " + o.Result + " (this obligation takes the place of the pinned group " + g + ", which is no longer generated)", o})
+					}
+				}
+			}
+			if bad == 0 {
+				renamed = append(renamed, g)
+			}
+			continue
+		} else if strings.HasPrefix(cls, "nopanic.") && genErr[fn] == "" && fnGenerated[fn] {
+			// the panic site itself is gone and no other site of this kind appeared
+			renamed = append(renamed, g)
 			continue
 		}
 		reason := "no obligation of this group is generated any more (the contract does not attach: function changed shape, was renamed or removed)"
@@ -626,6 +693,7 @@ func report(p *Program, prop, tier string, seed int, runs []*funcRun, pin, verbo
 			"vacuity_failures":         vacuous,
 			"generation_errors":        genErr,
 			"detached_functions":       sortedKeys(detached),
+			"renamed_groups":           renamed,
 			"samples":                  samples,
 			"obligation_results":       obls,
 			"bounded":                  []string{},
@@ -721,4 +789,123 @@ func oblGroup(n string) string {
 		}
 	}
 	return n
+}
+
+// retryUndecided re-runs, a few at a time and with a timeout scaled up (x4, and further by
+// the machine's load), every pinned obligation that the first pass left without an answer
+// (timeout/unknown). A missing answer is not a refutation: on a loaded machine the solvers
+// of 16 concurrent queries share the cores and a 3 s query can exceed the 10 s wall-clock
+// limit. Retrying stops at the first obligation that stays undischarged: the run is then a
+// violation whatever the others do, and they keep their first-pass result.
+func retryUndecided(prop string, runs []*funcRun, cfg *SolverCfg) {
+	pinned, _ := loadPinned(prop)
+	pin := map[string]bool{}
+	for _, g := range pinned {
+		pin[oblGroup(g)] = true
+	}
+	undecided := map[string]bool{}
+	if data, err := os.ReadFile(filepath.Join(verifDir, "obligations", prop+".undecided")); err == nil {
+		for _, l := range strings.Split(string(data), "\n") {
+			undecided[strings.TrimSpace(l)] = true
+		}
+	}
+	type item struct {
+		r   *funcRun
+		e   *Enc
+		o   *Obl
+		tag string
+	}
+	var todo []item
+	for _, r := range runs {
+		if r.err != nil || r.enc == nil || r.presolved {
+			continue
+		}
+		for _, o := range r.enc.obls {
+			// pinned, or new in this tree (a name recorded neither as pinned nor as undecided at pin time)
+			if (o.Result == "timeout" || o.Result == "unknown") && (pin[oblGroup(o.Name)] || !undecided[o.Name]) {
+				todo = append(todo, item{r, r.enc, o, r.key})
+			}
+		}
+	}
+	if len(todo) == 0 {
+		return
+	}
+	scale := 4.0
+	if data, err := os.ReadFile("/proc/loadavg"); err == nil {
+		var l1 float64
+		fmt.Sscanf(string(data), "%f", &l1)
+		if f := l1 / float64(runtime.NumCPU()); f > 1 {
+			if f > 1.5 {
+				f = 1.5
+			}
+			scale *= f
+		}
+	}
+	c2 := *cfg
+	c2.TimeoutS = int(float64(cfg.TimeoutS) * scale)
+	fmt.Fprintf(os.Stderr, "retry: %d pinned obligation(s) without an answer in the first pass; retrying with timeout %ds\n", len(todo), c2.TimeoutS)
+	base := func(tag string) string { return filepath.Join(c2.Scratch, sanitizeFile(tag)+".retry") }
+	const width = 2
+	for i := 0; i < len(todo); i += width {
+		var wg sync.WaitGroup
+		j := i + width
+		if j > len(todo) {
+			j = len(todo)
+		}
+		for _, it := range todo[i:j] {
+			wg.Add(1)
+			go func(it item) {
+				defer wg.Done()
+				first := it.o.Result
+				it.o.Extra = nil
+				raceOne(it.e, it.o, &c2, base(it.tag))
+				if it.o.Extra == nil {
+					it.o.Extra = map[string]string{}
+				}
+				it.o.Extra["retry"] = fmt.Sprintf("first pass %s; retried with timeout %ds", first, c2.TimeoutS)
+			}(it)
+		}
+		wg.Wait()
+		for _, it := range todo[i:j] {
+			if it.o.Result != "unsat" {
+				return
+			}
+		}
+	}
+}
+
+// oblClass: the kind of an obligation or group name ("F/kind:detail" -> "kind").
+func oblClass(n string) string {
+	if k := strings.Index(n, "/"); k >= 0 {
+		n = n[k+1:]
+	}
+	if k := strings.Index(n, ":"); k >= 0 {
+		n = n[:k]
+	}
+	return n
+}
+
+// loopOrdinalOf: N of "F/inv.step:loopN.k..." (0 when the name has no loop ordinal).
+func loopOrdinalOf(n string) int {
+	k := strings.Index(n, ":loop")
+	if k < 0 {
+		return 0
+	}
+	ord := 0
+	for _, c := range n[k+5:] {
+		if c < '0' || c > '9' {
+			break
+		}
+		ord = ord*10 + int(c-'0')
+	}
+	return ord
+}
+
+func sortedInts(m map[int]bool) []int {
+	var out []int
+	for k := range m {
+		out = append(out, k)
+	}
+	sort.Ints(out)
+	return out
 }
